@@ -4,7 +4,7 @@ CONSTANTS
   Voters0 = {"a", "b", "c"}
   Observers = {}
   Nil = "Nil"
-  BatchBytes = 70
+  BatchBytes = 50
   UseBatch = TRUE
   WaitLeader = TRUE
   QueueSize = 10
@@ -13,7 +13,7 @@ CONSTANTS
   InitConnected = TRUE
   Membership = FALSE
   CompactMin = 1000000
-  SnapChunk = 65536
+  SnapChunk = 60
   Cmds = {"c1", "c2", "c3", "c4", "c5", "c6"}
   CmdSize = 40
   MaxTerm = 6
@@ -24,7 +24,7 @@ CONSTANTS
   SubmitAt = {"a", "b", "c"}
   Advs0 = {"z", "h", "m", "j"}
   SnapSize = 100
-  Compactors = {}
+  Compactors = {"a", "b", "c"}
   FaultPairs = {{"a","b"},{"a","c"},{"b","c"},{"a","d"},{"b","d"},{"c","d"},{"a","e"},{"b","e"},{"c","e"},{"d","e"}}
   Isolated0 = {}
   MembCids = {}
